@@ -280,6 +280,8 @@ pub struct Sys<F: Flavor> {
     discarded: Vec<u8>,
     /// a drop of this tag has been observed and is accounted for
     explained: [bool; harness::MAX_TAGS],
+    /// largest buffer length seen so far (GrowingHeapBuf may allocate only when it grows beyond it)
+    max_buf_len: usize,
     symmetry: bool,
 }
 
@@ -352,13 +354,17 @@ impl<F: Flavor> Sys<F> {
         // C18
         let (na, nf) = harness::take_alloc_counts();
         if na + nf > 0 {
-            let growth_ok = F::GROWING && na > 0 && matches!(op, Op::TrySend | Op::PollSend(..) | Op::PollRecv(..) | Op::TryRecv | Op::PollStream(..));
-            // GrowingHeapBuf: only push paths (a send, or a receive that refills the buffer from a parked sender) may allocate/reallocate
+            // GrowingHeapBuf: only buffer growth may allocate, i.e. a push path (a send, or a receive
+            // that refills the buffer from a parked sender) that makes the buffer longer than it has
+            // ever been before (VecDeque never shrinks and only reallocates when it is full)
+            let len_now = F::snapshot(self.chan()).scalars[1] as usize;
+            let growth_ok = F::GROWING && na > 0 && len_now > self.max_buf_len && matches!(op, Op::TrySend | Op::PollSend(..) | Op::PollRecv(..) | Op::TryRecv | Op::PollStream(..));
             if !growth_ok {
                 out.p("C18", "alloc-in-call", format!("{} allocations / {} frees inside library calls of step {:?}", na, nf, op));
             }
         }
         let snap = F::snapshot(self.chan());
+        self.max_buf_len = self.max_buf_len.max(snap.scalars[1] as usize);
         let (rlive, slive) = self.live_nodes();
         structcheck::check_errors(&snap.errors, out);
         structcheck::check_queue("receive_waiters", &snap.queues[0], &rlive, &self.dead, out);
@@ -502,6 +508,7 @@ impl<F: Flavor> System for Sys<F> {
             received: vec![],
             discarded: vec![],
             explained: [false; harness::MAX_TAGS],
+            max_buf_len: 0,
             symmetry: cfg.get_or("symmetry", 1) != 0,
         }
     }
@@ -1014,7 +1021,7 @@ impl<F: Flavor> System for Sys<F> {
 
     fn fingerprint(&self) -> Vec<u8> {
         let snap = F::snapshot(self.chan());
-        let mut v = vec![snap.scalars[0] as u8, snap.scalars[1] as u8, self.closed as u8, self.close_calls, self.next_tag, F::senders(self.chan()) as u8, F::receivers(self.chan()) as u8];
+        let mut v = vec![if F::GROWING { self.max_buf_len as u8 } else { 0 }, snap.scalars[0] as u8, snap.scalars[1] as u8, self.closed as u8, self.close_calls, self.next_tag, F::senders(self.chan()) as u8, F::receivers(self.chan()) as u8];
         let pos = |tag: u64| -> u8 {
             if tag == NO_VALUE {
                 return 254;
